@@ -58,13 +58,18 @@ func c11Cfg(cc c11Cell) cache.Config {
 	}
 
 	cfg.DeleteExpiredAfter = 24 * time.Hour
-	if cc.DEA == "1m" || cc.DEA == "1m+sys" {
+	if cc.DEA == "1m" || cc.DEA == "1m+sys" || cc.DEA == "1m+count" {
 		cfg.DeleteExpiredAfter = time.Minute
 	}
 
 	if cc.DEA == "1m+sys" {
 		cfg.SysMemSoftLimit = 1 << 62 // configured, never exceeded: "as long as no eviction limit is exceeded"
 		cfg.EvictFraction = 1         // a wrongly triggered eviction would remove everything
+	}
+
+	if cc.DEA == "1m+count" {
+		cfg.CountSoftLimit = 1
+		cfg.EvictFraction = 1
 	}
 
 	return cfg
@@ -79,6 +84,16 @@ func c11Cells(tier string) []Cell {
 				for first := range c11Alphabet(0) {
 					cells = append(cells, Cell{ID: c11Cell{Backend: b, TTL: ttl, DEA: dea, First: first}.id()})
 				}
+			}
+		}
+	}
+
+	// CountSoftLimit=1 on three keys: the limit is exceeded only while long-expired entries are still counted, or
+	// when two or three keys are kept (then, and only then, the cycle evicts: everything, EvictFraction is 1)
+	for _, b := range backendKinds {
+		for _, ttl := range []string{"5m", "unlimited"} {
+			for first := range c11Alphabet(0) {
+				cells = append(cells, Cell{ID: c11Cell{Backend: b, TTL: ttl, DEA: "1m+count", First: first}.id()})
 			}
 		}
 	}
@@ -417,7 +432,7 @@ func init() {
 		ID: "C11", Title: "The janitor deletes only entries expired longer than DeleteExpiredAfter",
 		Cells: c11Cells, Run: c11Run,
 		Rule: "explicit-state BFS over sequences of {Write default TTL, Write per-call TTL 10s, Advance 1m, Advance DeleteExpiredAfter+1s, Cleanup, ExpireAll} on 3 keys, " +
-			"for TimeToLive in {5m, Unlimited} x DeleteExpiredAfter in {24h, 1m} x 3 backends; Cleanup is the janitor's own invokeCleanup called through a verif-tagged accessor; " +
+			"for TimeToLive in {5m, Unlimited} x DeleteExpiredAfter in {24h, 1m, 1m with a never exceeded SysMemSoftLimit, 1m with CountSoftLimit 1 (exceeded only by entries the cycle deletes anyway, or by several kept keys: the model then evicts everything)} x 3 backends; Cleanup is the janitor's own invokeCleanup called through a verif-tagged accessor; " +
 			"after every transition Len and a full Walk are compared with the model (removed <=> expiry != never and expiry < now-DeleteExpiredAfter)",
 		Assumptions: []string{
 			"BFS cells: the janitor goroutine is not started; its cycle is an explicit operation calling the same function, at every position the alphabet allows",
